@@ -202,21 +202,21 @@ func L1DepositRot(quiet bool) Template {
 		name, q = "L1Dq*", 1
 	}
 	return Template{Name: name, Instances: func(w *World) [][]Op {
-		return [][]Op{{{Kind: L1Deposit, A: (len(w.L1Deps) + 1) % 4, B: q}}}
+		return [][]Op{{{Kind: L1Deposit, A: (len(w.L1Deps) + 1) % 5, B: q}}}
 	}}
 }
 
 // BDepositRot is a deposit on rollup B with a rotating field variant.
 func BDepositRot() Template {
 	return Template{Name: "BD*", Instances: func(w *World) [][]Op {
-		return [][]Op{{{Kind: RollupBDeposit, A: (len(w.BDeps) + 3) % 4}}}
+		return [][]Op{{{Kind: RollupBDeposit, A: (len(w.BDeps) + 3) % 5}}}
 	}}
 }
 
 // L2DepositRot is a deposit on our L2 with a rotating field variant (and destination network).
 func L2DepositRot() Template {
 	return Template{Name: "L2D*", Instances: func(w *World) [][]Op {
-		return [][]Op{{{Kind: L2Deposit, A: (len(w.L2Deps) + 2) % 4}}}
+		return [][]Op{{{Kind: L2Deposit, A: (len(w.L2Deps) + 4) % 5}}}
 	}}
 }
 
